@@ -19,6 +19,12 @@ theorem total_codes (s : Text) :
 theorem total_party_fields (s : Text) : OptA.parse s ≠ .panic ∧ OptC.parse s ≠ .panic ∧ OptD.parse s ≠ .panic :=
   ⟨optA_no_panic s, optC_no_panic s, optD_no_panic s⟩
 
+/-- the customer / beneficiary fields 50, 50L, 50G, 50H, 50K, 59, 59A and the BIC-only 50C -/
+theorem total_customer_fields (s : Text) :
+    F50NoOption.parse s ≠ .panic ∧ F50L.parse s ≠ .panic ∧ F50G.parse s ≠ .panic ∧ F50H.parse s ≠ .panic ∧
+    F50K.parse s ≠ .panic ∧ F59.parse s ≠ .panic ∧ F59A.parse s ≠ .panic := customer_fields_no_panic s
+theorem total_bic (s : Text) : parseBic s ≠ .panic := parseBic_no_panic s
+
 /-- Byte slicing is the only primitive that can panic, and it cannot on ASCII text within bounds. -/
 theorem slice_total_on_ascii (t : Text) (a b : Nat) (h : isAsciiT t = true) (hab : a ≤ b) (hb : b ≤ t.length) :
     bslice t a b ≠ .panic := by
